@@ -436,6 +436,38 @@ NONDET = re.compile(r"std::hash::RandomState|std::collections::hash_map::RandomS
                     r"std::fs::|std::net::|SystemTime|Instant::now|thread_rng")
 
 
+def default_hasher_types(ty):
+    """`HashMap<K, V>` / `HashSet<T>` occurrences printed without a hasher argument: rustc omits a
+    type argument only when it is the default, i.e. `std::hash::RandomState`."""
+    out = []
+    for kind, need in (("std::collections::HashMap<", 3), ("std::collections::HashSet<", 2)):
+        start = 0
+        while True:
+            i = ty.find(kind, start)
+            if i < 0:
+                break
+            j = i + len(kind)
+            depth = 1
+            args = 1
+            k = j
+            while k < len(ty) and depth:
+                ch = ty[k]
+                if ch in "<([":
+                    depth += 1
+                elif ch in ">)]":
+                    if ch == ">" and ty[k - 1] == "-":
+                        pass
+                    else:
+                        depth -= 1
+                elif ch == "," and depth == 1:
+                    args += 1
+                k += 1
+            if args < need:
+                out.append(ty[i:k])
+            start = j
+    return out
+
+
 def check_rdet(ctx, prog):
     lex = prog.crate(LEX)
     n_loc = n_call = 0
@@ -446,9 +478,11 @@ def check_rdet(ctx, prog):
         for i, ty in enumerate(b["mir"]["locals"]):
             n_loc += 1
             m = NONDET.search(ty)
-            if m:
+            dh = default_hasher_types(ty)
+            if m or dh:
+                what = m.group(0) if m else "default-hasher " + dh[0].split("<")[0].rsplit("::", 1)[-1]
                 ctx.ob("R-DET", "%s: local _%d has a nondeterministically seeded type" % (name, i),
-                       False, key="R-DET:type:%s:%s" % (name, m.group(0)), where=b["span"],
+                       False, key="R-DET:type:%s:%s" % (name, what), where=b["span"],
                        detail={"type": ty[:200],
                                "meaning": "iteration order of a RandomState map differs between "
                                           "runs: expanding the same definition twice can give "
@@ -466,7 +500,7 @@ def check_rdet(ctx, prog):
     for a in lex.data["adts"]:
         for v in a["variants"]:
             for f in v["fields"]:
-                m = NONDET.search(f["ty"])
+                m = NONDET.search(f["ty"]) or (default_hasher_types(f["ty"]) and True)
                 if m:
                     ctx.ob("R-DET", "%s.%s has a nondeterministically seeded type" % (a["path"], f["name"]),
                            False, key="R-DET:field:%s.%s" % (a["path"], f["name"]), where=a["span"],
@@ -561,7 +595,7 @@ def check_rparse(ctx, prog):
     check_postfix_mapping(ctx, fn["parse_regex_2"])
     # left associativity: in binary levels the accumulator is operand 0
     for n in ("parse_regex_0", "parse_regex_1", "parse_regex_3"):
-        ok, detail = left_assoc(fn[n])
+        ok, detail = left_assoc(fn[n], commutative=(n == "parse_regex_0"))
         ctx.ob("R-PARSE", "%s is left-associative (accumulated tree is the left operand)" % n, ok,
                key="R-PARSE:assoc:" + n, where=fn[n]["span"], detail=detail)
     # peek-set agreement between the concatenation loop and the atom parser
@@ -609,7 +643,7 @@ def strictly_inner(blocks, dom, peeks, t, other):
     return true_edge_dominates(blocks, dom, peeks[other], peeks[t]) if t != other else False
 
 
-def left_assoc(body):
+def left_assoc(body, commutative=False):
     """In `re = Node(Box::new(re), Box::new(re2))` operand 0 derives from the accumulator."""
     blocks = body["mir"]["blocks"]
     names = body["mir"].get("names", {})
@@ -650,7 +684,15 @@ def left_assoc(body):
                 found += 1
                 o0 = rv["ops"][0].get("move") or rv["ops"][0].get("copy")
                 o1 = rv["ops"][1].get("move") or rv["ops"][1].get("copy")
-                if o0 is None or not origin(o0["l"]) or (o1 is not None and origin(o1["l"])):
+                a0 = o0 is not None and origin(o0["l"])
+                a1 = o1 is not None and origin(o1["l"])
+                if commutative:
+                    # `|` denotes union: which side holds the accumulated tree does not matter, but
+                    # exactly one side must (the other is the freshly parsed operand)
+                    if a0 == a1:
+                        return False, "%s does not combine the accumulated tree with the new operand" % \
+                            rv["kind"]["variant"]
+                elif not a0 or a1:
                     return False, "operand 0 of %s is not the accumulated tree" % rv["kind"]["variant"]
     return found > 0, "%d binary node(s)" % found
 
